@@ -271,6 +271,8 @@ class FormatMachine(MachineBase):
         via = op.get("via", "path")
         P = self.ROUNDTRIP_PROP
         CTX.fault("F9.restart_" + via)
+        if d.get("legacy"):
+            return self.restart_legacy(s, op, path, d, via)
         try:
             new = self.load_fresh(path, via, op.get("offset", 0))
         except Exception as e:
@@ -322,6 +324,93 @@ class FormatMachine(MachineBase):
 
     def redump(self, new, d):
         return new.dumps()
+
+    # ---- C05: the durable state was written by an older incarnation of the software ------------------
+    HEADER_TYPE = None
+    CURRENT_VERSION = "1.2"
+
+    def header_of(self, text):
+        if self.KIND == "json":
+            h = json.loads(text).get("header", {})
+            return h.get("version"), h.get("type")
+        if self.KIND == "ini":
+            h = inimod.as_dict(text).get("header", {})
+            return h.get("version"), h.get("type")
+        return None, None
+
+    def restart_legacy(self, s, op, path, d, via):
+        """F8 + F9: node restarts on a document of an older format version.  C05: the load succeeds, carries
+        the same facts (when an expected post-upgrade content is known), is written back as a
+        current-version file with the proper header type, re-loading that file gives an identical object
+        and a second write is byte-identical."""
+        P = d.get("legacy_prop", "C05")
+        ver = d.get("legacy_version", "?")
+        key = "%s/v%s" % (self.FORMAT, ver)
+        CTX.fault("F8.older_format_on_disk")
+        try:
+            new = self.load_fresh(path, via, op.get("offset", 0))
+        except Exception as e:
+            if isinstance(e, HarnessError):
+                raise
+            raise Violation(P, "%s.older_document_accepted" % P, "older-document-rejected/%s/%s" % (key, exc_class(e)),
+                            {"error": exc_class(e), "msg": str(e)[:200], "via": via, "source": d.get("source")})
+        got = self.observe(new)
+        self.count(P, ["legacy", key, via, d.get("source"), self.abstract_expected(got) if d["expected"] is None else self.abstract_expected(d["expected"])])
+        if d["expected"] is not None:
+            diff = first_diff(d["expected"], got)
+            if diff:
+                raise Violation(P, "%s.upgrade_carries_same_facts" % P, "upgrade-differs/%s/%s" % (key, diff_key(diff)),
+                                {"diff": diff, "via": via})
+        try:
+            text1 = self.redump(new, d)
+        except Exception as e:
+            if isinstance(e, HarnessError):
+                raise
+            v = Violation("C05", "C05.upgraded_object_can_be_written", "upgraded-object-unwritable/%s/%s" % (key, exc_class(e)),
+                          {"error": exc_class(e), "msg": str(e)[:200], "source": d.get("source")})
+            self.soft(v)
+            s.obj = new
+            s.tainted = True
+            self.rebind(s)
+            return "legacy-unwritable-known"
+        hv, ht = self.header_of(text1)
+        if self.KIND != "discinfo" and (hv != self.CURRENT_VERSION or ht != self.HEADER_TYPE):
+            raise Violation("C05", "C05.written_back_as_current_version", "written-back-header/%s" % key,
+                            {"version": hv, "type": ht})
+        try:
+            new2 = self.new_obj()
+            new2.loads(text1)
+        except Exception as e:
+            if isinstance(e, HarnessError):
+                raise
+            v = Violation("C05", "C05.rewritten_file_loads", "rewritten-file-rejected/%s/%s" % (key, exc_class(e)),
+                          {"error": exc_class(e), "msg": str(e)[:200], "source": d.get("source")})
+            self.soft(v)
+            s.obj = new
+            s.tainted = True
+            self.rebind(s)
+            return "legacy-reload-known"
+        got2 = self.observe(new2)
+        diff = first_diff(got, got2)
+        if diff:
+            raise Violation("C05", "C05.reload_of_rewritten_file_identical", "reload-differs/%s/%s" % (key, diff_key(diff)),
+                            {"diff": diff, "source": d.get("source")})
+        text2 = self.redump(new2, d)
+        if text2 != text1:
+            raise Violation("C05", "C05.second_write_byte_identical", "second-write-differs/%s" % key,
+                            {"diff": _text_diff(text1, text2), "source": d.get("source")})
+        # the node now runs on the upgraded state
+        self.fs.put(path, text1)
+        self.durable[path] = {"expected": got, "bytes": text1.encode("utf-8"), "clean": True, "kw": d.get("kw", {})}
+        self.after_legacy_durable(path, got)
+        s.obj = new
+        s.model = self.model_from_expected(s, got)
+        s.tainted = False
+        self.rebind(s)
+        return "upgraded"
+
+    def after_legacy_durable(self, path, got):
+        pass
 
     def abstract_expected(self, expected):
         return h64(expected)
